@@ -437,6 +437,14 @@ func VerifRun_C20() {
 			flags[i] = i != off
 		}
 		common.GConfig.HandleChangeCheckList(flags, nil, nil)
+		if verifBool("switchedOnAgain") {
+			// ... and ticks the box again later in the session: a second settings change with every check on
+			for i := range flags {
+				flags[i] = true
+			}
+			common.GConfig.HandleChangeCheckList(flags, nil, nil)
+			off = 0
+		}
 	}
 	file := "/w/a.lua"
 	p20, fs := vpProject([]string{file}, [][]byte{t})
